@@ -30,13 +30,10 @@ def opsCodecs (op : String) (args : List String) : Option String :=
   | "mp.decode", [b, d] => do
     let b ← bytesOfHex b
     let d ← bytesOfHex d
-    -- each part's header block then goes through `Headers.parse` (an empty block is not parsed: `Headers.parse(b'')`)
-    let r : R (List (Bytes × Bytes)) := match mpDecode b d with
-      | .error e => .error e
-      | .ok ps =>
-        match ps.find? (fun p => !p.1.isEmpty && match Headers.parse Ops.registry [] p.1 with | .error _ => true | .ok _ => false) with
-        | some p => (match Headers.parse Ops.registry [] p.1 with | .error e => .error e | .ok _ => .ok ps)
-        | none => .ok ps
+    -- each part's header block goes through `Headers.parse` as soon as the part is cut (an empty block is not parsed)
+    let chk : Bytes → R Unit := fun blk => if blk.isEmpty then .ok () else
+      match Headers.parse Ops.registry [] blk with | .error e => .error e | .ok _ => .ok ()
+    let r := mpDecodeWith chk b d
     pure (renderHdr (renderR renderPairs) r)
   | "plain.encode", [cs, d] => do
     let cs ← csOf cs
